@@ -1,0 +1,11 @@
+//go:build verif
+
+// Contracts for package eonkeypublisher, checked by /verif/govc (see /verif/DESIGN.md). Comments only.
+package eonkeypublisher
+
+//@ // C20 (callback flavours): the publication callback queues the key for the publisher goroutine on every path -
+//@ // one channel send, unconditionally (it may block when the queue is full; it may not drop the key and still
+//@ // report success). Channels are not modelled beyond the ghost counter of sends.
+//@ func (*EonKeyPublisher).Publish
+//@   requires p != nil
+//@   ensures ghost("chansends") == old(ghost("chansends")) + 1
